@@ -24,6 +24,7 @@ def _c11_fsm(ctx):
 
 
 def _c11_rest(ctx):
+    attr.rule_attr_scratch(ctx)
     attr.rule_numconv(ctx)
     attr.rule_main_funnel(ctx)
     lin.rule_wrap_w2(ctx)
@@ -166,7 +167,7 @@ PROPS = {
                        "without the error function that records message and line, that the error state is absorbing, "
                        "and that every state has one nesting depth (GKFparser, DataParser of gama-g3, the adjustment-results reader); an error "
                        "recorded by error() cannot be overwritten (error escape); every schema child/attribute of gama-local.xsd is accepted; "
-                       "R-NUM: numeric conversions are guarded and float->int casts range-checked; R-FUNNEL: every catch clause of the mains ends in "
+                       "R-ATTR A3: parser scratch members are written before they are read within an element (no carry-over); R-NUM: numeric conversions are guarded and float->int casts range-checked; R-FUNNEL: every catch clause of the mains ends in "
                        "a non-zero return; R-WRAP W2: no subtraction wrap loop on input-facing angles; R-BND: coeff[]/index[] writes bounded; "
                        "R-PAIR P2: new[]/delete[] pairing and no dangling owner after delete; R-SIB: covariance acceptance checks. "
                        "The clauses, not the run-time behaviour, are decided.",
